@@ -105,6 +105,17 @@ impl Prop for Days {
                 want_next,
                 (next.0 as i64, next.1, next.2)
             );
+            // and the day itself reads the same after its neighbour was read (no hidden state)
+            let again = mk_date(day).as_ymd();
+            ensure_eq!("c01.depends_on_previous_call", format!("as_ymd of day {} after reading day {}", day, day + 1), want, (again.0 as i64, again.1, again.2));
+        }
+        if day > cal::MIN_DAY + 400 && (day as u64 ^ (day as u64 >> 9)) % 4 == 0 {
+            let delta = [1i64, 30, 365, 366][(day as u64 / 4 % 4) as usize];
+            let _ = mk_date(day - delta).as_ymd();
+            let again = mk_date(day).as_ymd();
+            ensure_eq!("c01.depends_on_previous_call", format!("as_ymd of day {} after reading day {}", day, day - delta), want, (again.0 as i64, again.1, again.2));
+            let back = Date::from_ymd(again.0, again.1, again.2).map(|d| rd_date(&d));
+            ensure_eq!("c01.depends_on_previous_call", format!("from_ymd{:?} after reading day {}", again, day - delta), Ok(day), back.map_err(|e| e.to_string()));
         }
         Verdict::Pass
     }
